@@ -167,3 +167,25 @@ Proof. vm_compute. repeat split; reflexivity. Qed.
 Example C03_reachable_nontrivial :
   exists r m, ex_after [1;1;1;0;1]%Z = Some (r, m) /\ wfs_b ex_inst (r_x r) = true /\ s_now (r_x r) = 1019%Z.
 Proof. vm_compute. eexists; eexists; repeat split. Qed.
+
+(* the TimeDependency invariant (clause depi_b, SM/Inv.v): in every state and micro-state of every run of every instance, a
+   dependency stored in an AGV's occupied_till is that AGV's own -> WAITING / -> TRANSIT transition for its own claim, the
+   AGV waits at the pickup point, and the claimed job lies in the ordered machine post-buffer BEHIND the blocking job - so
+   a re-issued transition never moves another AGV's job, and the job a dependency waits for cannot have left the buffer *)
+Theorem C03_time_dependencies_wellformed_every_instance :
+  forall (sigma : oracle) (i : inst) (fuel : nat) (x0 : state) (joker0 : Z) (ta : bool) (r : result) (m : mw),
+    inst_nonneg_b i = true ->
+    clock_b x0 = true -> wfs_b i x0 = true -> fresh2_b i x0 = true -> nodep_b x0 = true ->
+    reach sigma i fuel x0 joker0 ta r m -> depi_b i (r_x r) = true.
+Proof. intros sigma i fuel x0 joker0 ta r m Hnn. apply run_depi; auto. Qed.
+Print Assumptions C03_time_dependencies_wellformed_every_instance.
+
+Theorem C03_time_dependencies_wellformed_micro_states_every_instance :
+  forall (sigma : oracle) (i : inst) (fuel : nat) (x0 : state) (joker0 : Z) (ta : bool) (r : result) (m : mw)
+         (a : Z) (r' : result) (m' : mw) (lg : mlog),
+    inst_nonneg_b i = true ->
+    clock_b x0 = true -> wfs_b i x0 = true -> fresh2_b i x0 = true -> nodep_b x0 = true ->
+    reach sigma i fuel x0 joker0 ta r m -> mw_step sigma i fuel r m a = MOk r' m' lg ->
+    forall tr y, In (tr, y) lg -> depi_b i y = true.
+Proof. intros sigma i fuel x0 joker0 ta r m a r' m' lg Hnn. apply run_micro_depi; auto. Qed.
+Print Assumptions C03_time_dependencies_wellformed_micro_states_every_instance.
